@@ -105,6 +105,62 @@ def check_descriptor(ctx):
               "CURRENT switched to %s" % key(sc["a"][1]))
 
 
+def check_table_sequences(ctx):
+    """The last sequence written to the new descriptor is the maximum over
+    the entries actually found in the surviving tables: a table enters
+    rep->tables only through the scan (or the salvage of a scanned table), and
+    its max_sequence is folded from every parsed key."""
+    from ..rules import BAD, check_automaton, stores_of_field_in_program
+    P = ctx.P
+    pushes = []
+    for f in P.all_functions:
+        if f.file != RP:
+            continue
+        for b, i, e in find_calls(f, "ldb_vector_push"):
+            if argkey(e, 0) == "&rep->tables":
+                pushes.append((f, e))
+    ctx.require(len(pushes) >= 2, "registrations into rep->tables not found")
+    for f, e in pushes:
+        ctx.check(f.name in ("scan_table", "repair_table"), "T5-repair-table-registration", "%s@%s" % (f.name, e["l"].split(":")[1]),
+                  f.name, site(f, e), "tables are registered by the scan (or the salvage of a scanned table)",
+                  "%s registers a table without scanning its entries: its max_sequence is not derived from the data" % f.name,
+                  subject="register:" + f.name)
+    sts = stores_of_field_in_program(P, "ldb_tabinfo_s", "max_sequence")
+    ctx.require(len(sts) >= 2, "stores to tabinfo.max_sequence not found")
+    for f, b, i, e in sts:
+        if const_val(e["rhs"]) == 0:
+            ctx.ok("T6-repair-counters", "table-max-sequence:init@%s:%s" % (f.name, e["l"].split(":")[1]), site(f, e), "initialised to 0")
+            continue
+        atoms = xgraph(P, f).must_at(b, i)
+        ok = f.name == "scan_table" and key(e["rhs"]) == "parsed.sequence" and e["op"] == "=" and \
+            holds(atoms, (">", "parsed.sequence", "t->max_sequence")) and holds(atoms, ("!=", ("CALL", "ldb_pkey_import"), "0"))
+        ctx.check(ok, "T6-repair-counters", "table-max-sequence:fold@%s:%s" % (f.name, e["l"].split(":")[1]), f.name, site(f, e),
+                  "a table's max_sequence is the maximum over its parsed keys",
+                  "table max_sequence stored from %s in %s; facts %s" % (key(e["rhs"]), f.name, fmt_atoms(atoms)),
+                  subject="table-max-sequence:" + f.name)
+    sc = ctx.fn("scan_table", RP)
+    is_count = lambda e: e["e"] == "inc" and key(e["x"]) == "counter"
+    ctx.require(any(is_count(e) for b, i, e in sc.events("inc")), "scan_table: entry counter not found")
+
+    def step(q, e, st, b, i):
+        if q == BAD:
+            return q
+        if is_count(e):
+            return BAD if q == 1 else 1
+        if e["e"] == "ret" and q == 1:
+            return BAD
+        return q
+
+    def edge(q, lit):
+        if q == 1 and lit is not None and lit[0] not in ("case", "default"):
+            k = key(lit[0])
+            if "parsed.sequence" in k and "t->max_sequence" in k:
+                return 0
+        return q
+    check_automaton(ctx, "T6-repair-counters", "table-max-sequence:every-entry", sc, 0, step, edge,
+                    "every counted entry of a scanned table is compared against the table's max_sequence")
+
+
 def check_archive_not_delete(ctx):
     P = ctx.P
     n = 0
@@ -171,6 +227,7 @@ def check_level0_provenance(ctx):
 
 
 def check(ctx):
+    check_table_sequences(ctx)
     check_pipeline(ctx)
     check_descriptor(ctx)
     check_archive_not_delete(ctx)
